@@ -5,6 +5,12 @@
 import Qfx.Lemmas.CodecParse
 import Qfx.Lemmas.CodecParseD
 import Qfx.Lemmas.CodecTotal
+import Qfx.Lemmas.CodecBody
+import Qfx.Lemmas.CodecXml
+import Qfx.Lemmas.CodecDictSegs
+import Qfx.Lemmas.CodecDictStack
+import Qfx.Lemmas.CodecDictNest
+import Qfx.Lemmas.CodecDictExample
 open Qfx Qfx.Spec
 
 /-- the field extracted from a buffer is exactly the bytes up to and including the first SOH; the rest is what follows -/
@@ -196,6 +202,154 @@ theorem C11_faithful_dict_nogroups (fx : Fixes) (d : Dicts) (t8 t9 t35 : TagValu
   rw [hsec]
   exact getBytes_view _ _ _ j tv hfind hj
 
+/-- WITH DICTIONARIES, MESSAGES WITH ANY NUMBER OF REPEATING GROUPS (fixed code): the wire
+    `8, 9, 35, (plain…, G=<n>, <members>, z)…, plain…, 10` — every run `Seg` = plain fields, the count field of a group `G` of the
+    message type, its member fields in any arrangement of two nesting levels (`Walk2`), a plain body field `z` behind it that belongs to
+    no level of the group — parses; `Message.fields` is the wire's field list in order (members included), `Bytes()` is the wire, and every
+    group whose tag is not set again later is found in the body as the field holding exactly its count field and member fields. -/
+theorem C11_faithful_dict_groups (d : Dicts) (mt : Bytes) (t8 t9 t35 t10 : TagValue) (segs : List Seg) (post : List TagValue)
+    (hw8 : IsWire t8) (hw9 : IsWire t9) (hw35 : IsWire t35) (hw10 : IsWire t10)
+    (h8 : t8.tag = 8) (h9 : t9.tag = 9) (h35 : t35.tag = 35) (h10 : t10.tag = 10) (hv : t35.value = mt)
+    (hsegs : ∀ s ∈ segs, SegOK d mt s) (hpost : PlainFields d post)
+    (hng10 : NoGroupTag d 10) (hh10 : isHeaderField d 10 = false)
+    (hbl : atoi t9.value = .ok ((fieldsLength (t8 :: t9 :: t35 :: (segs.flatMap Seg.flat ++ (post ++ [t10]))) : Nat) : Int)) :
+    ∃ m, parseMessage Fixes.cur d (wireOf (t8 :: t9 :: t35 :: (segs.flatMap Seg.flat ++ (post ++ [t10])))) = .ok m ∧
+      m.fields = t8 :: t9 :: t35 :: (segs.flatMap Seg.flat ++ (post ++ [t10])) ∧
+      m.bytes Fixes.cur = .ok (wireOf (t8 :: t9 :: t35 :: (segs.flatMap Seg.flat ++ (post ++ [t10]))), m) ∧
+      ∀ (A : List Seg) (s : Seg) (B : List Seg), segs = A ++ s :: B →
+        (∀ tv ∈ s.z0 :: (B.flatMap Seg.adds ++ post), tv.tag ≠ s.g0.tag) →
+        ∃ f, alFind m.body.lookup s.g0.tag = some f ∧ f.items m.fields = s.g0 :: s.M := by
+  obtain ⟨m, hparse, hfields, hraw, hgrp⟩ := parse_dict_segs (d := d) t8 t9 t35 t10 segs post hw8 hw9 hw35 hw10 h8 h9 h35 h10 hv hsegs hpost
+    hng10 hh10 hbl
+  refine ⟨m, hparse, hfields, by simp [Message.bytes, hraw], ?_⟩
+  intro A s B hsplit huniq
+  refine ⟨_, hgrp A s B hsplit huniq, ?_⟩
+  rw [hfields, hsplit]
+  have hL : t8 :: t9 :: t35 :: ((A ++ s :: B).flatMap Seg.flat ++ (post ++ [t10])) =
+      (t8 :: t9 :: t35 :: (A.flatMap Seg.flat ++ s.pre)) ++ ((s.g0 :: s.M) ++ (s.z0 :: (B.flatMap Seg.flat ++ (post ++ [t10])))) := by
+    simp [Seg.flat, List.flatMap_append]
+  have e : 3 + (A.flatMap Seg.flat).length + s.pre.length = (t8 :: t9 :: t35 :: (A.flatMap Seg.flat ++ s.pre)).length := by
+    simp; omega
+  have e2 : 1 + s.M.length = (s.g0 :: s.M).length := by simp; omega
+  simp only [Field.items]
+  rw [hL, e, List.drop_left, e2, List.take_left]
+
+/-- THE SAME FOR REPEATING GROUPS WITH NESTED GROUPS OF ANY DEPTH (fixed code): `fs` the application dictionary's field list of the
+    message type (`AppMsg`); every run (`SegOKN`) = plain fields, the count field of a group of `fs`, member fields that move the
+    parser's tag stack as `stepSpec` says — stay, push a nested group, pop to the enclosing level that lists the tag (any number of levels,
+    the D6 pop), pop and push (`WalkN`) —, and a plain body field `z` that no level of the stack lists.  The parse succeeds,
+    `Message.fields` = the wire's field list, `Bytes()` = the wire, every group whose tag is not set again later is in the body as exactly
+    its count field and all its member fields, and every such `z` whose tag is not set again later is returned by `Body.GetBytes`. -/
+theorem C11_faithful_dict_groups_anydepth (d : Dicts) (mt : Bytes) (fs : List DNode) (ha : AppMsg d mt fs)
+    (t8 t9 t35 t10 : TagValue) (segs : List Seg) (post : List TagValue)
+    (hw8 : IsWire t8) (hw9 : IsWire t9) (hw35 : IsWire t35) (hw10 : IsWire t10)
+    (h8 : t8.tag = 8) (h9 : t9.tag = 9) (h35 : t35.tag = 35) (h10 : t10.tag = 10) (hv : t35.value = mt)
+    (hsegs : ∀ s ∈ segs, SegOKN d mt fs s) (hpost : PlainFields d post)
+    (hng10 : NoGroupTag d 10) (hh10 : isHeaderField d 10 = false)
+    (hbl : atoi t9.value = .ok ((fieldsLength (t8 :: t9 :: t35 :: (segs.flatMap Seg.flat ++ (post ++ [t10]))) : Nat) : Int)) :
+    ∃ m, parseMessage Fixes.cur d (wireOf (t8 :: t9 :: t35 :: (segs.flatMap Seg.flat ++ (post ++ [t10])))) = .ok m ∧
+      m.fields = t8 :: t9 :: t35 :: (segs.flatMap Seg.flat ++ (post ++ [t10])) ∧
+      m.bytes Fixes.cur = .ok (wireOf (t8 :: t9 :: t35 :: (segs.flatMap Seg.flat ++ (post ++ [t10]))), m) ∧
+      (∀ (A : List Seg) (s : Seg) (B : List Seg), segs = A ++ s :: B →
+        (∀ tv ∈ s.z0 :: (B.flatMap Seg.adds ++ post), tv.tag ≠ s.g0.tag) →
+        ∃ f, alFind m.body.lookup s.g0.tag = some f ∧ f.items m.fields = s.g0 :: s.M) ∧
+      (∀ (A : List Seg) (s : Seg) (B : List Seg), segs = A ++ s :: B →
+        (∀ tv ∈ B.flatMap Seg.adds ++ post, tv.tag ≠ s.z0.tag) → m.body.getBytes m.fields s.z0.tag = .ok s.z0.value) := by
+  obtain ⟨m, hparse, hfields, hraw, hgrp, hzf⟩ := parse_dict_segsN (d := d) ha t8 t9 t35 t10 segs post hw8 hw9 hw35 hw10 h8 h9 h35 h10 hv
+    hsegs hpost hng10 hh10 hbl
+  refine ⟨m, hparse, hfields, by simp [Message.bytes, hraw], ?_, ?_⟩
+  · intro A s B hsplit huniq
+    refine ⟨_, hgrp A s B hsplit huniq, ?_⟩
+    rw [hfields, hsplit]
+    have hL : t8 :: t9 :: t35 :: ((A ++ s :: B).flatMap Seg.flat ++ (post ++ [t10])) =
+        (t8 :: t9 :: t35 :: (A.flatMap Seg.flat ++ s.pre)) ++ ((s.g0 :: s.M) ++ (s.z0 :: (B.flatMap Seg.flat ++ (post ++ [t10])))) := by
+      simp [Seg.flat, List.flatMap_append]
+    have e : 3 + (A.flatMap Seg.flat).length + s.pre.length = (t8 :: t9 :: t35 :: (A.flatMap Seg.flat ++ s.pre)).length := by
+      simp; omega
+    have e2 : 1 + s.M.length = (s.g0 :: s.M).length := by simp; omega
+    simp only [Field.items]
+    rw [hL, e, List.drop_left, e2, List.take_left]
+  · intro A s B hsplit huniq
+    apply getBytes_view _ _ _ _ s.z0 (hzf A s B hsplit huniq)
+    rw [hfields, hsplit]
+    have hL : t8 :: t9 :: t35 :: ((A ++ s :: B).flatMap Seg.flat ++ (post ++ [t10])) =
+        (t8 :: t9 :: t35 :: (A.flatMap Seg.flat ++ (s.pre ++ s.g0 :: s.M))) ++ (s.z0 :: (B.flatMap Seg.flat ++ (post ++ [t10]))) := by
+      simp [Seg.flat, List.flatMap_append]
+    rw [hL, List.getElem?_append_right (by simp; omega)]
+    have : 3 + (A.flatMap Seg.flat).length + s.pre.length + 1 + s.M.length -
+        (t8 :: t9 :: t35 :: (A.flatMap Seg.flat ++ (s.pre ++ s.g0 :: s.M))).length = 0 := by simp; omega
+    rw [this]; rfl
+
+/-- THE SAME WITH THE RUNS DESCRIBED FROM THE DICTIONARY ALONE (`SegNested`): the member fields of every group are WELL NESTED w.r.t. the
+    dictionary (`GroupWalk`: leaf members of the level, count fields of groups nested in it each followed by a well-nested sequence for
+    that group — entries, delimiters and member order are free), the dictionary tree under the group lists no tag at two levels of one
+    branch and none that is a header / trailer field or a top-level group (`TreeOK`), and the field behind the group is listed nowhere in
+    that tree.  No reference to the parser's stack moves: `groupWalk_walkN` shows the fixed `parseGroup` walks such a sequence along
+    its nesting. -/
+theorem C11_faithful_dict_wellnested (d : Dicts) (mt : Bytes) (fs : List DNode) (ha : AppMsg d mt fs)
+    (t8 t9 t35 t10 : TagValue) (segs : List Seg) (post : List TagValue)
+    (hw8 : IsWire t8) (hw9 : IsWire t9) (hw35 : IsWire t35) (hw10 : IsWire t10)
+    (h8 : t8.tag = 8) (h9 : t9.tag = 9) (h35 : t35.tag = 35) (h10 : t10.tag = 10) (hv : t35.value = mt)
+    (hsegs : ∀ s ∈ segs, SegNested d fs s) (hpost : PlainFields d post)
+    (hng10 : NoGroupTag d 10) (hh10 : isHeaderField d 10 = false)
+    (hbl : atoi t9.value = .ok ((fieldsLength (t8 :: t9 :: t35 :: (segs.flatMap Seg.flat ++ (post ++ [t10]))) : Nat) : Int)) :
+    ∃ m, parseMessage Fixes.cur d (wireOf (t8 :: t9 :: t35 :: (segs.flatMap Seg.flat ++ (post ++ [t10])))) = .ok m ∧
+      m.fields = t8 :: t9 :: t35 :: (segs.flatMap Seg.flat ++ (post ++ [t10])) ∧
+      m.bytes Fixes.cur = .ok (wireOf (t8 :: t9 :: t35 :: (segs.flatMap Seg.flat ++ (post ++ [t10]))), m) ∧
+      (∀ (A : List Seg) (s : Seg) (B : List Seg), segs = A ++ s :: B →
+        (∀ tv ∈ s.z0 :: (B.flatMap Seg.adds ++ post), tv.tag ≠ s.g0.tag) →
+        ∃ f, alFind m.body.lookup s.g0.tag = some f ∧ f.items m.fields = s.g0 :: s.M) ∧
+      (∀ (A : List Seg) (s : Seg) (B : List Seg), segs = A ++ s :: B →
+        (∀ tv ∈ B.flatMap Seg.adds ++ post, tv.tag ≠ s.z0.tag) → m.body.getBytes m.fields s.z0.tag = .ok s.z0.value) :=
+  C11_faithful_dict_groups_anydepth d mt fs ha t8 t9 t35 t10 segs post hw8 hw9 hw35 hw10 h8 h9 h35 h10 hv
+    (fun s hs => (hsegs s hs).ok) hpost hng10 hh10 hbl
+
+/-! non-vacuity of `SegOKN` (three nesting levels, a pop over two levels): Qfx/Lemmas/CodecDictExample.lean -/
+example := @exSegOKN
+example := @exSegNested
+
+/-! non-vacuity of `SegOK` (a run with a two-entry NoPartyIDs group, nested NoPartySubIDs): Qfx/Lemmas/CodecDictExample.lean -/
+example := @exSegOK
+
+/-- `bodyBytes` (what the resend rebuild `buildWithBodyBytes` re-emits; byte layer of C03): for a wire message whose fields come as
+    8, 9, 35, further header fields (at least one), body fields (at least one), trailer fields, 10 — parsed without dictionary —
+    `Message.bodyBytes` is exactly the bytes of the body fields: it starts behind the last header field and ends in front of
+    the first trailer field / CheckSum. -/
+theorem C11_bodyBytes_nodict (fx : Fixes) (t8 t9 t35 t10 : TagValue) (H B T : List TagValue)
+    (hw : WireMsg t8 t9 t35 (H ++ (B ++ T)) t10)
+    (hbl : atoi t9.value = .ok ((fieldsLength (t8 :: t9 :: t35 :: ((H ++ (B ++ T)) ++ [t10])) : Nat) : Int))
+    (hH : ∀ tv ∈ H, secOf Dicts.none tv.tag = .h) (hHne : H ≠ []) (hB : ∀ tv ∈ B, secOf Dicts.none tv.tag = .b) (hBne : B ≠ [])
+    (hT : ∀ tv ∈ T, secOf Dicts.none tv.tag = .t) :
+    ∃ m, parseMessage fx Dicts.none (wireOf (t8 :: t9 :: t35 :: ((H ++ (B ++ T)) ++ [t10]))) = .ok m ∧ m.bodyBytes = wireOf B := by
+  refine ⟨_, parse_wire_nodict fx t8 t9 t35 _ t10 hw hbl, ?_⟩
+  apply ndMessage_bodyBytes t8 t9 t35 t10 H B T hw.tag10
+  · intro tv h; rw [← secOf_none]; exact hH tv h
+  · exact hHne
+  · intro tv h; rw [← secOf_none]; exact hB tv h
+  · exact hBne
+  · intro tv h
+    obtain ⟨tt, hne, _, _, hb, _⟩ := (hw.wpre tv (by simp [h])).1
+    rw [hb]; simp
+  · intro tv h; rw [← secOf_none]; exact hT tv h
+
+/-- XMLData CARRIED WITH ITS LENGTH ("including XMLData carried with its length").  For every wire message
+    `8, 9, 35, plain…, 212=<n>, 213=<data>, plain…, 10` in which `data` is ANY `n > 0` bytes (SOH, `=`, anything), with any
+    dictionaries under which the plain fields start no group: the parse succeeds, `Message.fields` is the wire's field list in
+    order — the 213 field with exactly the `n` data bytes as its value — followed by one unused (zero) entry per SOH byte inside
+    the data (Go sizes the array by counting SOH), and `Bytes()` is the wire.  (For such messages Go skips the BodyLength
+    comparison; BodyLength only has to be an integer.) -/
+theorem C11_faithful_xml (fx : Fixes) (d : Dicts) (t8 t9 t35 x212 x213 t10 : TagValue) (preA postB : List TagValue) (bl : Int)
+    (hw8 : IsWire t8) (hw9 : IsWire t9) (hw35 : IsWire t35) (hw10 : IsWire t10)
+    (h8 : t8.tag = 8) (h9 : t9.tag = 9) (h35 : t35.tag = 35) (h10 : t10.tag = 10)
+    (hpre : PlainFields d preA) (hpost : PlainFields d postB)
+    (hw212 : IsWire x212) (h212 : x212.tag = 212) (hlen : atoi x212.value = .ok (x213.value.length : Int)) (hpos : 0 < x213.value.length)
+    (hw213 : IsXmlWire x213) (h213 : x213.tag = 213)
+    (hng10 : NoGroupTag d 10) (hh10 : isHeaderField d 10 = false) (hbl : atoi t9.value = .ok bl) :
+    ∃ m, parseMessage fx d (wireOf (t8 :: t9 :: t35 :: (preA ++ x212 :: x213 :: (postB ++ [t10])))) = .ok m ∧
+      m.fields = t8 :: t9 :: t35 :: (preA ++ x212 :: x213 :: (postB ++ [t10])) ++ List.replicate (countByte x213.value SOH) TagValue.zero ∧
+      m.raw = some (wireOf (t8 :: t9 :: t35 :: (preA ++ x212 :: x213 :: (postB ++ [t10])))) :=
+  parse_xml fx t8 t9 t35 x212 x213 t10 preA postB bl hw8 hw9 hw35 hw10 h8 h9 h35 h10 hpre hpost hw212 h212 hlen hpos hw213 h213 hng10 hh10 hbl
+
 /-- PANIC FREEDOM OF THE PARSER (codec part of C09; `C09_parse_total` of DESIGN §5).  After the fixes of D2 and D3, for EVERY
     byte string and EVERY dictionaries (transport and application, any content), `ParseMessageWithDataDictionary` into a
     fresh message returns a message or an error: none of the Go index / slice expressions of `doParsing`, `parseGroup`,
@@ -260,9 +414,13 @@ example : (extractField [56, 61, 70, 1, 57, 61, 53, 1]).1 = [57, 61, 53, 1] := b
 /- Clause checklist (properties.jsonl C11):
    "parsing succeeds … every field retrievable … order preserved … raw bytes unchanged"   no dictionary: C11_faithful_nodict,
         C11_retrievable_nodict; app / transport+app dictionaries, messages without dictionary groups: C11_faithful_dict_nogroups;
-        with dictionary groups and XMLData: C11_faithful_full, C11_retrievable_full (monitor)
+        XMLData with its length (any dictionaries without groups): C11_faithful_xml; any number of dictionary groups with up to two
+        nesting levels, plain fields between: C11_faithful_dict_groups (one group: C13_dict_flat_group_*, C13_dict_depth2_group_*);
+        any nesting depth: C11_faithful_dict_wellnested (runs described from the dictionary alone), C11_faithful_dict_groups_anydepth; groups directly adjacent / directly followed by a header or trailer
+        field: C11_faithful_full, C11_retrievable_full (monitor)
         (monitor clauses accepts_wf, fields_faithful, parsed_sections, retrievable, raw_unchanged); field slicing: C11_extractField_slices
    "first three fields are not 8, 9, 35 … rejected"                                          C11_rejects_order
+   (byte layer of C03: bodyBytes)                                                             C11_bodyBytes_nodict
    "BodyLength disagrees with its content … rejected"                                        C11_rejects_length, C11_finish_checks_length,
                                                                                               C11_loop_ends_in_length_check (+ monitor rejects_length)
    "rejected with an error" = never a panic (C09 codec part)                                 C11_parse_total, C11_getters_total (all inputs, all dictionaries, fixed code);
